@@ -18,12 +18,14 @@ package main
 import (
 	"archive/zip"
 	"bytes"
+	"context"
 	"crypto/sha256"
 	"encoding/hex"
 	"fmt"
 	"io"
 	"math/rand"
 	"os"
+	"os/exec"
 	"path/filepath"
 	"sort"
 	"strconv"
@@ -51,6 +53,12 @@ type c20case struct {
 	B2   int    `json:"b2,omitempty"`
 	Tree string `json:"tree"` // basic | tricky
 	RC   int    `json:"rc"`   // return code the entry program must deliver
+	// re-pack: before the pack under test, another project was packed into the SAME target file
+	PrevTree string `json:"prev_tree,omitempty"` // tree of the earlier pack ("" = the target is a fresh file)
+	PrevLen  int    `json:"prev_len,omitempty"`  // length of the earlier source binary (zeros)
+	// end to end: the real command is built, packs a project and the result is started as a process
+	E2E  bool     `json:"e2e,omitempty"`
+	Args []string `json:"args,omitempty"` // e2e: arguments the packed executable is started with
 }
 
 // ---- what the packed program reports ------------------------------------------------
@@ -321,7 +329,7 @@ type c20env struct {
 }
 
 func c20key(d c20case) string {
-	return fmt.Sprintf("%d/%s/%d/%d/%d/%s/%d/%d/%s", d.Len, d.Fill, d.Base, d.Part, d.At, d.Lit, d.B1, d.B2, d.Tree)
+	return fmt.Sprintf("%d/%s/%d/%d/%d/%s/%d/%d/%s/%s/%d/%v%v", d.Len, d.Fill, d.Base, d.Part, d.At, d.Lit, d.B1, d.B2, d.Tree, d.PrevTree, d.PrevLen, d.E2E, d.Args)
 }
 
 func c20one(c *Ctx, env *c20env, d c20case) {
@@ -357,6 +365,40 @@ func c20one(c *Ctx, env *c20env, d c20case) {
 		panic(err)
 	}
 	os.Remove(dst)
+
+	// re-pack: the target already exists and holds an earlier pack of another project
+	// (different entry, return code and files, possibly much longer than the new output)
+	if d.PrevTree != "" {
+		pt := env.trees[d.PrevTree]
+		if pt == nil {
+			var err error
+			if pt, err = c20mktree(env.root, d.PrevTree, marker); err != nil {
+				panic(err)
+			}
+			env.trees[d.PrevTree] = pt
+		}
+		psrc := filepath.Join(env.root, "prev-source.bin")
+		pentry := filepath.Join(env.root, "prev-entry.ecal")
+		if err := os.WriteFile(psrc, bytes.Repeat([]byte{0}, d.PrevLen), 0o644); err != nil {
+			panic(err)
+		}
+		if err := os.WriteFile(pentry, []byte(c20entry(pt, d.RC%100+121)), 0o644); err != nil {
+			panic(err)
+		}
+		pr := guarded(20*time.Second, func() (interface{}, error) {
+			p := tool.NewCLIPacker()
+			p.EntryFile = pentry
+			p.Dir, p.SourceBinary, p.TargetBinary = &pt.dir, &psrc, &dst
+			p.LogOut = io.Discard
+			return nil, p.Pack()
+		})
+		if pr.TimedOut || pr.Panicked || pr.Err != nil {
+			c.Violate("pack-error", fmt.Sprintf("the earlier Pack into the target failed: %+v", pr), d)
+			c.Count(c20key(d), true, d)
+			return
+		}
+		c.Dist["repack"]++
+	}
 
 	// what the program must do: reference run, cross-checked against the fixed expectations
 	expects, refRC, refOK := c20reference(t, entry, dst)
@@ -516,7 +558,7 @@ func c20zipEquals(z []byte, want map[string]string) bool {
 // ---- sweep ----------------------------------------------------------------------------
 
 func runC20(c *Ctx) error {
-	c.Rule = "source binaries described by (length, filler): all zeros / all '#' / all newlines / filler + a prefix of the marker (every prefix length) ending 0.. bytes before the end / the whole marker inside / short literal byte strings over {0,'\\n','#','E','P'}; lengths over two periods of the real buffer geometry (b1, b1+b2) and, with the buffer sizes set through the verif export, exhaustively over small geometries; project trees with nested directories, empty and binary files, marker text in file names and contents, and - trees big-<size>-<rep|rnd> - entry file, imported module and data file of 32767..300000 bytes (compressible and PRNG content; long values compared by SHA-256 on the Go side); non-trivial = non-empty binary; distinct by (length, filler, geometry, tree)"
+	c.Rule = "source binaries described by (length, filler): all zeros / all '#' / all newlines / filler + a prefix of the marker (every prefix length) ending 0.. bytes before the end / the whole marker inside / short literal byte strings over {0,'\\n','#','E','P'}; lengths over two periods of the real buffer geometry (b1, b1+b2) and, with the buffer sizes set through the verif export, exhaustively over small geometries; project trees with nested directories, empty and binary files, marker text in file names and contents, and - trees big-<size>-<rep|rnd> - entry file, imported module and data file of 32767..300000 bytes (compressible and PRNG content; long values compared by SHA-256 on the Go side); re-pack into an existing target (smaller after larger, same twice, larger after smaller); end to end: the real command built from the repository packs a project and the packed executable is started as a process with 9 argument lists (tool names as first argument included); non-trivial = non-empty binary; distinct by (length, filler, geometry, tree)"
 	// the marker as read from the implementation, once per cases file (MK), used by every case
 	mk0, _, _ := tool.VerifPackConstants()
 	c.BeginCases("From Ecal Require Import Common.Bytes Run.RunC20.\nDefinition MK : bytes := "+CoqBytes(mk0)+".", "case", c.Pick(250, 1500))
@@ -542,8 +584,16 @@ func runC20(c *Ctx) error {
 		if err := c.LoadReplay(&d); err != nil {
 			return err
 		}
+		if d.E2E {
+			return c20e2e(c, env, [][]string{d.Args})
+		}
 		c20one(c, env, d)
 		return nil
+	}
+
+	// end to end with the real command: build, pack, start the packed executable as a process
+	if err := c20e2e(c, env, [][]string{{}, {"foo"}, {"run"}, {"format"}, {"pack"}, {"console"}, {"debug"}, {"-x", "run"}, {"run", "-help"}}); err != nil {
+		return err
 	}
 
 	marker, b1, b2 := tool.VerifPackConstants()
@@ -584,6 +634,23 @@ func runC20(c *Ctx) error {
 	add(c20case{Len: 0, Fill: "zeros", Tree: "tricky"})
 	add(c20case{Len: 40, Fill: "inside", At: 3})
 	add(c20case{Len: p1 + 5, Fill: "partial", Part: ml - 1}) // guard fails: binary ends with the marker minus its last byte
+
+	// re-pack into an existing target: smaller after larger (the edit - pack - run cycle after
+	// the project shrank), the same project twice, larger after smaller
+	add(c20case{Len: 100, Fill: "hash", Tree: "basic", PrevTree: "big-40000-rnd", PrevLen: 5000})
+	add(c20case{Len: 100, Fill: "hash", Tree: "basic", PrevTree: "tricky", PrevLen: 100})
+	add(c20case{Len: 0, Fill: "zeros", Tree: "basic", PrevTree: "basic", PrevLen: 0})
+	add(c20case{Len: p1 - 1, Fill: "zeros", Tree: "tricky", PrevTree: "tricky", PrevLen: p1 - 1})
+	add(c20case{Len: 300, Fill: "nl", Tree: "big-40000-rnd", PrevTree: "basic", PrevLen: 10})
+	add(c20case{Len: 10, Fill: "zeros", Tree: "tricky", PrevTree: "basic", PrevLen: 2 * p2})
+	add(c20case{Len: 50, Fill: "hash", Tree: "big-32769-rep", PrevTree: "big-100000-rnd", PrevLen: 50})
+	if c.Thorough() {
+		for i, pt := range []string{"big-300000-rnd", "big-65536-rep", "tricky", "basic"} {
+			for j, tr := range []string{"basic", "tricky", "big-33000-rnd"} {
+				add(c20case{Len: 17*i + j, Fill: []string{"zeros", "hash", "nl"}[j], Tree: tr, PrevTree: pt, PrevLen: 4000 * (i + j)})
+			}
+		}
+	}
 
 	// project files larger than one decompression window (32 KiB), compressible and not:
 	// entry file, imported module and data file of exactly that size, next to empty files
@@ -716,4 +783,102 @@ func runC20(c *Ctx) error {
 	}
 	c.Exhaustive = false
 	return nil
+}
+
+// ---- end to end ------------------------------------------------------------------------
+
+// c20repo: the repository the harness was built against (the driver's VERIF_REPO, else /repo).
+func c20repo() string {
+	if r := os.Getenv("VERIF_REPO"); r != "" {
+		return r
+	}
+	return "/repo"
+}
+
+// c20e2e builds the real command (cli/ecal.go main) once, lets it pack a small project
+// (`ecal pack -dir .. -target .. entry`) and starts the packed executable as a child process
+// with each of the argument lists: every start must run the embedded program (the entry
+// file's exit code and a line it logs), never the normal command line.
+func c20e2e(c *Ctx, env *c20env, argLists [][]string) error {
+	const rc = 42
+	const mark = "VERIF-C20-E2E-EMBEDDED-PROGRAM-RAN"
+	dir := filepath.Join(env.root, "e2e")
+	proj := filepath.Join(dir, "proj")
+	cwd := filepath.Join(dir, "cwd") // the children run here: a fall-through to pack/format writes into cwd
+	for _, p := range []string{filepath.Join(proj, "lib"), cwd} {
+		if err := os.MkdirAll(p, 0o755); err != nil {
+			return err
+		}
+	}
+	entry := "import \"lib/m.ecal\" as m\nlog(\"" + mark + " \", m.k)\nm.k + 2\n"
+	if err := os.WriteFile(filepath.Join(proj, "entry.ecal"), []byte(entry), 0o644); err != nil {
+		return err
+	}
+	if err := os.WriteFile(filepath.Join(proj, "lib", "m.ecal"), []byte("k := 40\n"), 0o644); err != nil {
+		return err
+	}
+	ecal := filepath.Join(dir, "ecal")
+	app := filepath.Join(dir, "app")
+	t0 := time.Now()
+	build := exec.Command("go", "build", "-o", ecal, "./cli")
+	build.Dir = c20repo()
+	if out, err := build.CombinedOutput(); err != nil {
+		return fmt.Errorf("go build ./cli in %s: %v\n%s", build.Dir, err, out)
+	}
+	c.Extra["e2e_build_seconds"] = int(time.Since(t0).Seconds())
+	marker, _, _ := tool.VerifPackConstants()
+	if bin, err := os.ReadFile(ecal); err == nil {
+		// the theorem's guard for the real interpreter binary
+		c.Extra["e2e_binary_bytes"] = len(bin)
+		c.Extra["e2e_binary_guard_unambiguous"] = len(marker) > 0 && !bytes.Contains(append(bin, marker[:len(marker)-1]...), []byte(marker))
+	}
+	run := func(timeout time.Duration, wd, name string, args ...string) (int, string, bool) {
+		ctx, cancel := context.WithTimeout(context.Background(), timeout)
+		defer cancel()
+		cmd := exec.CommandContext(ctx, name, args...)
+		cmd.Dir = wd
+		cmd.Stdin = nil
+		out, err := cmd.CombinedOutput()
+		if ctx.Err() != nil {
+			return -1, string(out), true
+		}
+		if err != nil {
+			if ee, ok := err.(*exec.ExitError); ok {
+				return ee.ExitCode(), string(out), false
+			}
+			return -1, string(out) + err.Error(), false
+		}
+		return 0, string(out), false
+	}
+	if code, out, to := run(60*time.Second, proj, ecal, "pack", "-dir", proj, "-target", app, "entry.ecal"); code != 0 || to {
+		d := c20case{E2E: true, Fill: "e2e", Tree: "e2e", RC: rc}
+		c.Violate("pack-error", fmt.Sprintf("`ecal pack` failed (exit %d, timed out %v): %s", code, to, c20tail(out)), d)
+		c.Count("e2e/pack", true, d)
+		return nil
+	}
+	for _, args := range argLists {
+		if args == nil {
+			args = []string{}
+		}
+		d := c20case{E2E: true, Args: args, Fill: "e2e", Tree: "e2e", RC: rc}
+		code, out, to := run(20*time.Second, cwd, app, args...)
+		c.Dist["e2e_starts"]++
+		switch {
+		case to:
+			c.Violate("marker-missed", fmt.Sprintf("the packed executable started with arguments %q did not run the embedded program (no exit within 20s; it continued with the normal command line?): %s", args, c20tail(out)), d)
+		case code != rc || !strings.Contains(out, mark):
+			c.Violate("marker-missed", fmt.Sprintf("the packed executable started with arguments %q did not run the embedded program: exit code %d instead of %d, program output seen: %v; output: %s", args, code, rc, strings.Contains(out, mark), c20tail(out)), d)
+		default:
+			c.Dist["e2e_ran_embedded"]++
+		}
+		c.Count(c20key(d), true, d)
+	}
+	return nil
+}
+
+func c20tail(s string) string {
+	if len(s) > 300 {
+		return "..." + s[len(s)-300:]
+	}
+	return s
 }
